@@ -3,8 +3,10 @@ r"""C45 - end-of-line filters round-trip canonical content
 _eol_filter_stack_map; breezy/filters/__init__.py: filtered_output_bytes,
 filtered_input_file, internal_size_sha_file_byname, FilteredStat,
 _get_filter_stack_for; breezy/bzr/workingtree_4.py:
-ContentFilterAwareSHA1Provider.sha1 / .stat_and_sha1; breezy/tree.py:
-_content_filter_stack; breezy/rules.py).
+ContentFilterAwareSHA1Provider.sha1 / .stat_and_sha1, InterDirStateTree;
+breezy/tree.py: _content_filter_stack, InterTree.file_content_matches;
+breezy/bzr/inventorytree.py: InterInventoryTree._changes_from_entries;
+breezy/rules.py).
 
 Model: lean/BreezyVerif/Model/C45.lean; theorems in Props/C45.lean (all byte
 strings, all settings, both platforms, abstract hash function), T1 in
@@ -49,6 +51,39 @@ T2 (every run):
        canonical for the setting by construction; the oracle looks at all of
        them, the model at one per tree (thorough: all) because the driver
        needs about a second for such a line.
+   Every tree has TWO revisions (the tip changes only two small files per
+   setting: appended line / one byte replaced) and is checked out TWICE: a
+   sprout (accelerator tree, the source's working tree format) and a
+   lightweight checkout straight from the repository with the OTHER dirstate
+   format (2a <-> 1.14), so every setting is seen under WorkingTree5 and
+   WorkingTree6 in every tree.  "Reports no changes" is asked through EVERY
+   comparison route (_api_routes / _cmd_routes; ~40 per checkout), under a
+   read lock and again, on a new tree object, under a write lock:
+     dirstate's own comparison   iter_changes(basis) [first, on an untouched
+                                 tree], with specific_files, against the
+                                 repository's tree of the basis revision,
+                                 changes_from, has_changes, `status`,
+                                 `status -r basis`, `status FILES`, `diff`,
+                                 `diff -r basis`;
+     generic comparison (g)      InterInventoryTree.iter_changes ->
+                                 InterTree.file_content_matches(.., lstat):
+                                 iter_changes(basis, extra_trees=[older]),
+                                 with specific_files / include_unchanged,
+                                 basis.iter_changes(tree) (source_stat),
+                                 iter_changes(older tree) and changes_from
+                                 (older tree) (exactly the changed files),
+                                 file_content_matches without stats, with
+                                 target_stat=lstat, reversed with source_stat,
+                                 from the repository tree and from the older
+                                 tree, `status -r older [FILES]`, `diff -r
+                                 older`.
+   Model: `cmp off` = contentMatches without size shortcut for (recorded
+   text, bytes on disk), per small file and checkout, for the changed files
+   also against their older text; after the re-commit some files per setting
+   are REWRITTEN (other line ending, one byte replaced, bytes appended; text
+   and binary) and the answers of the dirstate route and the generic routes
+   are compared with `cmp off` for the recorded text and the new bytes
+   (T2 only; C45 itself speaks about fresh checkouts).
  * The model batches are handed to separate driver processes through files
    and run while the implementation side of the next part is computed
    (_submit/_join); a failing / timed-out driver is an infrastructure error.
@@ -60,10 +95,23 @@ the CRLF reader only stores canonical content; settings named crlf* check out
 with CRLF only and settings named lf* check canonical text (without CR CR LF)
 out without any CRLF (on the byte level and on disk in the real trees); text
 already in the form the setting's name promises for the repository is not
-changed by the reader; the fresh checkout reports no changes, stores/reads
-back the committed bytes, sha1 / stat_and_sha1 / get_file_sha1 give
+changed by the reader; the fresh checkout (both checkouts, both formats)
+reports no changes through any comparison route and against the older
+revision exactly the files the tip changed, stores/reads back the committed
+bytes, sha1 / stat_and_sha1 / get_file_sha1 give
 sha1(c), stat_and_sha1 and get_file_with_stat report st_size == len(c), and a
 commit in the fresh checkout records nothing.
+
+Comparison decision in Lean (Model: SizeCheck / targetSize / contentMatches =
+InterTree.file_content_matches with an OPTIONAL "sizes differ => contents
+differ" shortcut; the code has none = SizeCheck.off): `generic_path_agrees`
+(the generic route and the dirstate route take the same decision),
+`checkout_clean_every_route`, `size_check_filtered_sound` (a shortcut on
+FilteredStat's size never changes the decision, any file content),
+`length_writeOut_eq_iff` + `size_check_raw_dirty_iff` (a shortcut on the raw
+lstat size reports a fresh checkout as changed exactly when the writer
+converted the text), witnesses `size_check_raw_witness` (crlf, "a\n", every
+hash function, both platforms) and `size_check_raw_witness_crlf_repo`.
 
 Finding (family "crlf-repo-cr-cr-lf"): the settings that store CRLF and write
 LF lose one CR of every "\r\r\n" (classifier: reader is _to_crlf_converter,
@@ -106,6 +154,22 @@ treated as known; each reported as VIOLATION with the concrete input shown):
  H2 harmless but shape-changing (`content` renamed, `find() >= 0`): extraction
     fails, Generated/C45.lean is invalidated, T1 lemmas recorded as
     t1_unproved, exhaustive T2 clean: exit 0.
+ third round (comparison routes; seeded change C45b):
+ S1 InterTree.file_content_matches: `source size != target_stat.st_size -> False`    crlf: fresh sprout of b'\r\ra\n\r\r'
+    (seed C45b: raw lstat size instead of the canonical size)           reported as changed by 16-21 generic routes
+                                                                         (the dirstate routes stay clean) + ~120 `cmp off` mismatches
+ S2 the same shortcut on source_stat (get_file_size of the target            only basis.iter_changes(tree) and file_content_matches(tree ->
+    != source_stat.st_size -> False)                                          basis, source_stat=lstat) report the crlf file (4 routes)
+ S3 _sha1_provider: WorkingTreeFormat5 trees get no filter-aware provider    crlf: only the fresh LIGHTWEIGHT CHECKOUT (working tree format
+                                                                         1.14) is reported as changed (diff, status, iter_changes(basis) ...)
+ S4 _changes_from_entries: entry.text_size != target_stat.st_size            crlf: iter_changes(basis, extra_trees=[older tree]) and 14 more
+    -> changed_content                                                    generic routes; file_content_matches itself stays clean
+ S5 get_file_sha1's stat-cache-miss fallback hashes the raw file             crlf: 22 routes
+ S6 file_content_matches: equal raw sizes -> True                            not a C45 violation (fresh checkouts stay clean): tie breaks,
+                                                                         43 `cmp off` mismatches (same-size rewrite / same-size change
+                                                                         since the older revision not reported), no-failing-input-found
+ H4 harmless: shortcut on the FILTERED size (source.get_file_size !=
+    len(target.get_file_text())) - sound by size_check_filtered_sound: clean
  H3 harmless: stat_and_sha1 tests `len(filters) > 0`, FilteredStat uses
     `base.st_size if st_size is None else st_size` (equivalent by
     `filtered_size_zero_iff`): clean.
@@ -126,20 +190,27 @@ THEOREMS = [
     "crlf_settings_write_crlf", "lf_settings_write_lf", "crlf_repo_settings_store_crlf",
     "filtered_size_zero_iff", "stat_size_canonical", "checkout_clean", "checkout_dirty_iff",
     "checkout_dirty_witness", "checkout_clean_binary", "unset_pref_exact", "prefStack_some",
+    "generic_path_agrees", "checkout_clean_every_route", "size_check_filtered_sound", "length_writeOut_eq_iff",
+    "size_check_raw_dirty_iff", "size_check_raw_witness", "size_check_raw_witness_crlf_repo",
 ]
 T1_EQUALITY_THEOREMS = ["eol_map_gen_eq", "eol_map_gen_keys_nodup", "converter_consts_gen_eq",
                         "roundtrip_iff_generated", "binary_untouched_generated", "checkout_clean_generated",
-                        "filtered_size_zero_iff_generated"]
+                        "filtered_size_zero_iff_generated", "checkout_clean_every_route_generated"]
 RULE = ("case = (platform, eol setting, content) / (converter, content) / (platform table, setting the path gets "
         "from the rules file, file content in a checked-out tree); exhaustive over {CR,LF,NUL,a}^<=L for converters "
-        "and settings, random wider strings and chunkings, files > 65000 bytes in the trees; non-trivial = content "
+        "and settings, random wider strings and chunkings, files > 65000 bytes in the trees; every tree file is looked "
+        "at in two fresh checkouts (sprout / lightweight checkout, WorkingTree6 / WorkingTree5) through every "
+        "comparison route, and a few are rewritten afterwards (recorded text, new bytes on disk); non-trivial = content "
         "contains CR or LF and the setting is neither 'exact' nor unset")
 ASSUMPTIONS = [
     "the win32 variant of the table is exercised by executing a copy of eol.py with sys.platform patched to 'win32'; "
     "for the win32 tree the filter registry's 'eol' entry is re-registered to that copy for the duration",
-    "'reports no changes' is modelled as sha(read(disk)) == recorded for an abstract hash function (reportsChange); "
-    "the driver instantiates the hash with the identity; SHA-1 itself, the dirstate's stat cache and the rules "
-    "globbing are exercised on real trees, not modelled",
+    "'reports no changes' is modelled as sha(read(disk)) == recorded for an abstract hash function (reportsChange for "
+    "the dirstate's comparison, contentMatches with SizeCheck.off for InterTree.file_content_matches; "
+    "generic_path_agrees); the driver instantiates the hash with the identity; SHA-1 itself, the dirstate's stat "
+    "cache and the rules globbing are exercised on real trees, not modelled",
+    "which comparison route a call takes (dirstate / generic) is not modelled: every route is asked on the real trees "
+    "and all must give the model's single answer",
 ]
 TRUSTED = [
     "bytes.replace and re.sub with a fixed-width lookbehind are modelled by replCrlf / subUnixNl (tied by the exhaustive converter comparison)",
@@ -623,7 +694,291 @@ def _rules_text(sections):
     return "\n".join(out) + "\n"
 
 
-def _tree_part(ctx, filters, mod, win, sections, files, acc, fmt="2a", model_names=None):
+OTHER_FMT = {"2a": "1.14", "1.14": "2a"}
+# routes that go through the generic tree comparison (InterInventoryTree.iter_changes ->
+# _changes_from_entries -> InterTree.file_content_matches with the lstat of the working file)
+# rather than the dirstate's own comparison; recorded in the evidence only
+GENERIC_ROUTES = ("extra_trees", "older-tree", "reverse", "fcm", "status -r old", "diff -r old")
+
+
+def _run_cmd(cls, argv):
+    """run a builtin command in-process with its output captured -> (exit code, bytes)"""
+    import codecs
+    buf = io.BytesIO()
+
+    class _Captured(cls):
+        def _setup_outf(self):
+            if self.encoding_type == "exact":
+                self.outf = buf
+            else:
+                self.outf = codecs.getwriter("utf-8")(buf)
+                self.outf.encoding = "utf-8"
+
+    from breezy import trace
+    level = trace.get_verbosity_level()
+    try:
+        rc = _Captured().run_argv_aliases(list(argv))
+    finally:
+        trace.set_verbosity_level(level)     # run_argv_aliases resets it (we run with be_quiet)
+    return rc, buf.getvalue()
+
+
+def _status_paths(out):
+    """paths of a `status -S` listing (three flag columns, a blank, the path)"""
+    return {l[4:].rstrip("/") for l in out.decode("utf-8").split("\n") if l.strip()}
+
+
+_DIFF_HEAD = re.compile(rb"^=== (?:modified|added|removed|renamed) \S+ '(.*?)'", re.M)
+
+
+def _diff_paths(out):
+    return {m.decode("utf-8") for m in _DIFF_HEAD.findall(out)}
+
+
+def _other_checkout(branch, revid, fmt):
+    """a lightweight checkout straight from the repository (no accelerator tree) whose working
+    tree has format `fmt` (what Branch.create_checkout(lightweight=True) does, with the
+    control directory format chosen here)"""
+    from breezy.controldir import format_registry
+    from breezy.transport import get_transport
+    t = get_transport(os.path.join(env.fresh_dir("lco"), "t"))
+    t.ensure_base()
+    co = format_registry.make_controldir(fmt).initialize_on_transport(t)
+    from_branch = co.set_branch_reference(target_branch=branch)
+    return co.create_workingtree(revid, from_branch=from_branch)
+
+
+def _changed(changes):
+    return {ch.path[1] if ch.path[1] is not None else ch.path[0] for ch in changes}
+
+
+def _api_routes(path, names, rev_old, subset):
+    """Ask a checkout, through every tree-comparison route of the API, which files differ from
+    its basis / from the older revision.  -> ({route: set(paths)} against the basis revision,
+    {route: set(paths)} against the older revision), each under a read lock and again, on a
+    newly opened tree object, under a write lock.  Routes marked (g) take the generic
+    comparison (InterInventoryTree.iter_changes / InterTree.file_content_matches), the others
+    the dirstate's own; routes marked <subset> only look at the paths in `subset`."""
+    from breezy import workingtree
+    from breezy.tree import InterTree
+    tip, old = {}, {}
+    for lock in ("read", "write"):
+        wt = workingtree.WorkingTree.open(path)
+        with (wt.lock_read() if lock == "read" else wt.lock_write()):
+            repo = wt.branch.repository
+            basis = wt.basis_tree()
+            t_tip = repo.revision_tree(wt.last_revision())
+            t_old = repo.revision_tree(rev_old)
+            with basis.lock_read(), t_tip.lock_read(), t_old.lock_read():
+                L = "%s-locked " % lock
+                tip[L + "iter_changes(basis)"] = _changed(wt.iter_changes(basis))
+                tip[L + "iter_changes(basis, specific_files)"] = _changed(wt.iter_changes(basis, specific_files=subset))
+                tip[L + "iter_changes(repository tree of the basis revision)"] = _changed(wt.iter_changes(t_tip))
+                tip[L + "iter_changes(basis, extra_trees=[older tree]) (g)"] = _changed(
+                    wt.iter_changes(basis, extra_trees=[t_old]))
+                tip[L + "iter_changes(repository tree, specific_files, extra_trees=[basis]) (g)"] = _changed(
+                    wt.iter_changes(t_tip, specific_files=subset, extra_trees=[basis]))
+                tip[L + "iter_changes(basis, include_unchanged=True, extra_trees) (g)"] = {
+                    ch.path[1] for ch in wt.iter_changes(basis, include_unchanged=True, extra_trees=[t_old])
+                    if ch.changed_content or ch.path[0] != ch.path[1]}
+                tip[L + "basis.iter_changes(working tree) (g)"] = _changed(basis.iter_changes(wt))
+                d = wt.changes_from(basis)
+                tip[L + "changes_from(basis)"] = {c.path[1] or c.path[0] for c in
+                                                  list(d.modified) + list(d.added) + list(d.removed) + list(d.renamed)
+                                                  + list(d.kind_changed)}
+                tip[L + "has_changes()"] = {"<tree>"} if wt.has_changes() else set()
+                old[L + "iter_changes(repository tree of the older revision) (g)"] = _changed(wt.iter_changes(t_old))
+                old[L + "iter_changes(older tree, specific_files) (g) <subset>"] = _changed(
+                    wt.iter_changes(t_old, specific_files=subset))
+                d = wt.changes_from(t_old)
+                old[L + "changes_from(older tree) (g)"] = {c.path[1] or c.path[0] for c in
+                                                           list(d.modified) + list(d.added) + list(d.removed)
+                                                           + list(d.renamed) + list(d.kind_changed)}
+                fwd, fwd_tip, rev = InterTree.get(basis, wt), InterTree.get(t_tip, wt), InterTree.get(wt, basis)
+                fwd_old = InterTree.get(t_old, wt)
+                a, b, c, e, f = set(), set(), set(), set(), set()
+                for n in names:
+                    st = os.lstat(wt.abspath(n))
+                    if not fwd.file_content_matches(n, n):
+                        a.add(n)
+                    if not fwd.file_content_matches(n, n, None, st):
+                        b.add(n)
+                    if not rev.file_content_matches(n, n, st, None):
+                        c.add(n)
+                    if not fwd_tip.file_content_matches(n, n, None, st):
+                        e.add(n)
+                    if not fwd_old.file_content_matches(n, n, None, st):
+                        f.add(n)
+                tip[L + "file_content_matches(basis -> tree) (g)"] = a
+                tip[L + "file_content_matches(basis -> tree, target_stat=lstat) (g)"] = b
+                tip[L + "file_content_matches(tree -> basis, source_stat=lstat) (g)"] = c
+                tip[L + "file_content_matches(repository tree -> tree, target_stat=lstat) (g)"] = e
+                old[L + "file_content_matches(older tree -> tree, target_stat=lstat) (g)"] = f
+    return tip, old
+
+
+def _cmd_routes(path, rev_old, rev_tip, subset):
+    """the same question asked through the status and diff commands"""
+    from breezy.builtins import cmd_diff, cmd_status
+    tip, old = {}, {}
+    r_old, r_tip = "revid:" + rev_old.decode("utf-8"), "revid:" + rev_tip.decode("utf-8")
+    sub = [os.path.join(path, n) for n in subset]
+    tip["status"] = _status_paths(_run_cmd(cmd_status, ["-S", path])[1])
+    tip["status -r basis"] = _status_paths(_run_cmd(cmd_status, ["-S", "-r", r_tip, path])[1])
+    tip["status <files>"] = _status_paths(_run_cmd(cmd_status, ["-S"] + sub)[1])
+    rc, out = _run_cmd(cmd_diff, [path])
+    tip["diff"] = _diff_paths(out) | ({"<exit code %s>" % rc} if rc not in (0, None) and not _diff_paths(out) else set())
+    rc, out = _run_cmd(cmd_diff, ["-r", r_tip, path])
+    tip["diff -r basis"] = _diff_paths(out)
+    old["status -r older (g)"] = _status_paths(_run_cmd(cmd_status, ["-S", "-r", r_old, path])[1])
+    old["status -r older <files> (g) <subset>"] = _status_paths(_run_cmd(cmd_status, ["-S", "-r", r_old] + sub)[1])
+    rc, out = _run_cmd(cmd_diff, ["-r", r_old, path])
+    old["diff -r older (g)"] = _diff_paths(out)
+    return tip, old
+
+
+def _flip_eol(d):
+    """the same lines with the other line ending (LF <-> CRLF)"""
+    return d.replace(b"\r\n", b"\n") if b"\r\n" in d else BARE_LF.sub(b"\r\n", d)
+
+
+def _judge_routes(ctx, filters, mod, win, sections, fmt, files, stacks, routes, trees, old_text, subset, acc, W,
+                  report_cap=3):
+    """oracle: no route may report a file of a fresh checkout as changed against the revision it
+    was checked out from, nor - unless the file is one of `old_text` - against the older revision.
+    T2: the answer for every small file is compared with the model's contentMatches (`cmp off`),
+    for the files of `old_text` also against their older text."""
+    for co, tree in trees.items():
+        tip, old = routes[co]
+        wtfmt = fmt if co == "sprout" else OTHER_FMT[fmt]
+        tree_case = dict(kind="tree", win=win, key=files[0][1], fmt=fmt, name=files[0][0],
+                         sections=[list(s) for s in sections], c=hx(files[0][2]), checkout=co, wt_format=wtfmt)
+        for lock in ("read", "write"):
+            L = "%s-locked " % lock
+            if bool(tip.pop(L + "has_changes()")) != bool(tip[L + "iter_changes(basis)"]):
+                ctx.violation(dict(tree_case, route=L + "has_changes()"),
+                              "fresh %s (working tree format %s): %shas_changes() is %s although iter_changes(basis) reports %s"
+                              % (co, wtfmt, L, not tip[L + "iter_changes(basis)"], sorted(tip[L + "iter_changes(basis)"])[:5]))
+        ctx.count("comparison-routes:%d" % (len(tip) + len(old)))
+        known = set(files_n for files_n, _k, _c in files)
+        for r, got in list(tip.items()) + list(old.items()):
+            stray = sorted(x for x in got if x not in known)
+            if stray:
+                ctx.violation(dict(tree_case, route=r), "fresh %s (working tree format %s): %s reports %s, which "
+                              "are not files of the tree" % (co, wtfmt, r, stray[:5]))
+        reported = 0
+        for name, key, c in files:
+            stack = stacks[key]
+            with open(os.path.join(tree.basedir, name), "rb") as f:
+                disk = f.read()
+            fam = _family(mod, stack, c)
+            sk = "%s%s" % (key, " (win32)" if win else "")
+            case = dict(kind="tree", win=win, key=key, fmt=fmt, name=name, sections=[list(s) for s in sections],
+                        c=hx(c), checkout=co, wt_format=wtfmt)
+            if co != "sprout":
+                if disk != _write(filters, stack, [c]):
+                    ctx.violation(case, "%s: the lightweight checkout (working tree format %s) of %s wrote %s for %s, its "
+                                  "stack's filtered_output_bytes gives %s"
+                                  % (sk, wtfmt, name, _r(disk), _r(c), _r(_write(filters, stack, [c]))))
+                ctx.case(["tree-lco", wtfmt, win, key, _cid(c)],
+                         nontrivial=(key not in (None, "exact") and (b"\r" in c or b"\n" in c)))
+            spurious = sorted(r for r, got in tip.items() if name in got)
+            if name not in old_text:
+                spurious += sorted(r for r, got in old.items() if name in got)
+            if spurious:
+                ctx.count("spurious-change-reports")
+                for r in spurious:
+                    ctx.count("spurious:" + ("generic route" if "(g)" in r else "dirstate route"))
+                if fam is not None or reported < report_cap:
+                    reported += fam is None
+                    ctx.violation(dict(case, route=spurious[0]),
+                                  "%s: the fresh %s (working tree format %s) of canonical %s (on disk %s) is reported as "
+                                  "changed by %s%s" % (sk, co, wtfmt, _r(c), _r(disk), spurious[0],
+                                                       (" and %d more routes: %s" % (len(spurious) - 1, "; ".join(spurious[1:4])))
+                                                       if len(spurious) > 1 else ""), family=fam)
+            if len(c) > BIG_MIN:
+                continue
+            mk = key if key is not None else "-"
+            acc.add(["tree", W, mk, _cid(c), co, "matches"] + spurious[:3],
+                    "cmp off %s %s %s %s" % (W, mk, hx(c), hx(disk)), "F" if spurious else "T")
+            if name in old_text:
+                asked = [r for r in old if "<subset>" not in r or name in subset]
+                hit = [r for r in asked if name in old[r]]
+                impl = "F" if len(hit) == len(asked) else "T" if not hit else "F/T"
+                acc.add(["tree", W, mk, _cid(c), co, "matches-older", _cid(old_text[name])]
+                        + sorted(set(asked) - set(hit))[:3],
+                        "cmp off %s %s %s %s" % (W, mk, hx(old_text[name]), hx(disk)), impl)
+                ctx.count("older-revision-change:" + ("reported" if impl == "F" else "NOT reported"))
+
+
+def _modified_files(ctx, wt, files, recorded, rev_old, acc, W, nmod):
+    """T2 only (C45 speaks about fresh checkouts): some small files of the checkout are rewritten
+    - the same lines with the other line ending, one byte replaced (same size), bytes appended -
+    and what the dirstate route and the generic routes say is compared with the model's
+    contentMatches for the recorded text and the new bytes on disk."""
+    from breezy import workingtree
+    from breezy.tree import InterTree
+    # per setting: each kind of modification once (quick) on the first small file it changes
+    by_key, mods = {}, []
+    for name, key, _c in files:
+        if len(recorded[name]) <= 64:
+            by_key.setdefault(key, []).append(name)
+    for key, cands in by_key.items():
+        used = set()
+        for j in range(nmod):
+            kind = ("flip-eol", "flip-eol-binary", "same-size", "append-eol", "append")[j % 5]
+            for name in cands:
+                if name in used:
+                    continue
+                path = os.path.join(wt.basedir, name)
+                with open(path, "rb") as f:
+                    disk = f.read()
+                if kind.startswith("flip-eol"):
+                    d = _flip_eol(disk) if (b"\x00" in disk) == (kind == "flip-eol-binary") else disk
+                elif kind == "same-size":
+                    d = disk.replace(b"a", b"b", 1) if b"a" in disk else disk[:-1] + b"#" if disk else disk
+                elif kind == "append-eol":
+                    d = disk + (b"\r\n" if b"\r\n" in disk else b"\n")
+                else:
+                    d = disk + b"x"
+                if d == disk:
+                    continue
+                used.add(name)
+                with open(path, "wb") as f:
+                    f.write(d)
+                mods.append((name, key, kind, d))
+                break
+    if not mods:
+        return
+    wt = workingtree.WorkingTree.open(wt.basedir)
+    with wt.lock_read():
+        basis = wt.basis_tree()
+        t_old = wt.branch.repository.revision_tree(rev_old)
+        with basis.lock_read(), t_old.lock_read():
+            answers = {"iter_changes(basis)": _changed(wt.iter_changes(basis)),
+                       "iter_changes(basis, extra_trees) (g)": _changed(wt.iter_changes(basis, extra_trees=[t_old])),
+                       "basis.iter_changes(tree) (g)": _changed(basis.iter_changes(wt))}
+            fwd = InterTree.get(basis, wt)
+            a, b = set(), set()
+            for name, _key, _kind, _d in mods:
+                if not fwd.file_content_matches(name, name):
+                    a.add(name)
+                if not fwd.file_content_matches(name, name, None, os.lstat(wt.abspath(name))):
+                    b.add(name)
+            answers["file_content_matches (g)"] = a
+            answers["file_content_matches(target_stat) (g)"] = b
+    untouched = {n for n, _k, _c in files} - {m[0] for m in mods}
+    for name, key, kind, d in mods:
+        said = sorted(r for r in answers if name in answers[r])
+        impl = "F" if len(said) == len(answers) else "T" if not said else "F/T"
+        mk = key if key is not None else "-"
+        acc.add(["tree-modified", W, mk, kind, _cid(recorded[name]), hx(d)] + (said if impl == "F/T" else []),
+                "cmp off %s %s %s %s" % (W, mk, hx(recorded[name]), hx(d)), impl)
+        ctx.case(["tree-modified", W, mk, hx(recorded[name]), hx(d)], nontrivial=(key not in (None, "exact")))
+        ctx.count("modified:%s:%s" % (kind, "reported" if impl == "F" else "not reported" if impl == "T" else "routes disagree"))
+
+
+def _tree_part(ctx, filters, mod, win, sections, files, acc, fmt="2a", model_names=None, nmod=5, report_cap=3):
     """sections: [(glob, key | None)] written to BRZ_HOME/rules in this order (None = a section
     that does not set `eol`); files: [(path, key | None, content)] with the key the path must get
     (None = no rule matches / eol unset).  Commit the files, check the branch out afresh, look at
@@ -669,30 +1024,64 @@ def _tree_part(ctx, filters, mod, win, sections, files, acc, fmt="2a", model_nam
             else:
                 ctx.count("tree-skipped-noncanonical")
         files = kept
+        # a few more files that differ between the older revision and the tip (nothing else does)
+        others, seen = [], {}
+        for path, key, c in files:
+            if len(c) > 64 or seen.get(key, 0) >= 2:
+                continue
+            d, base = os.path.split(path)
+            opath = (d + "/" if d else "") + "o" + base[1:]
+            o_old = _canonicalise(key, b"one\ntwo\n\nlast" if seen.get(key) else b"one\ntwo\n")
+            o_new = (o_old[:-1] + b"T") if seen.get(key) else o_old + _canonicalise(key, b"three\n")
+            if (_expected_key(sections, opath) != key or _read(ctx, filters, stacks[key], o_old) != o_old
+                    or _read(ctx, filters, stacks[key], o_new) != o_new):
+                raise env.InfraError("C45: generator error, %s / %r / %r under %r" % (opath, o_old, o_new, key))
+            seen[key] = seen.get(key, 0) + 1
+            others.append((opath, key, o_old, o_new))
+        old_text = {p_: o for p_, _k, o, _n in others}
         wt = env.make_tree(fmt)
-        dirs = sorted({os.path.dirname(p) for p, _k, _c in files if os.path.dirname(p)})
+        dirs = sorted({"/".join(p.split("/")[:i]) for p, _k, _c in files for i in range(1, p.count("/") + 1)})
         for d in dirs:
             os.makedirs(os.path.join(wt.basedir, d), exist_ok=True)
-        for path, _key, c in files:
+        for path, _key, c in files + [(p_, k_, o) for p_, k_, o, _n in others]:
             with open(os.path.join(wt.basedir, path), "wb") as f:
                 f.write(c)
+        files = files + [(p_, k_, n_) for p_, k_, _o, n_ in others]
         names = [p for p, _k, _c in files]
         wt.add(dirs + names)
-        rev1 = wt.commit("add")
+        rev0 = wt.commit("add")
+        for path, _key, _o, c in others:
+            with open(os.path.join(wt.basedir, path), "wb") as f:
+                f.write(c)
+        rev1 = wt.commit("change the other files")
+        # two fresh checkouts: a sprout (the source tree is the accelerator tree) with the source's
+        # working tree format, and a lightweight checkout straight from the repository with the
+        # other dirstate format that supports content filtering
         wt2 = wt.controldir.sprout(os.path.join(env.fresh_dir("co"), "t")).open_workingtree()
-        if not wt2.supports_content_filtering():
-            raise env.InfraError("C45: format %s working tree does not support content filtering" % fmt)
+        wt3 = _other_checkout(wt.branch, rev1, OTHER_FMT[fmt])
+        for t_ in (wt2, wt3):
+            if not t_.supports_content_filtering():
+                raise env.InfraError("C45: %r does not support content filtering" % (t_._format,))
+        if type(wt2._format) is type(wt3._format):
+            raise env.InfraError("C45: both checkouts have working tree format %r" % (wt2._format,))
         provider = wt2._sha1_provider()
         if not isinstance(provider, workingtree_4.ContentFilterAwareSHA1Provider):
             ctx.violation(dict(kind="provider", fmt=fmt), "the working tree's SHA1 provider is %r, not "
                           "ContentFilterAwareSHA1Provider" % (provider,))
+        # every route of asking "did anything change?", on both checkouts (the dirstate's own
+        # comparison comes first, on a tree nothing else has looked at yet)
+        subset = names[::4]
+        routes = {}
+        for co, t_ in (("sprout", wt2), ("lightweight checkout", wt3)):
+            routes[co] = _api_routes(t_.basedir, names, rev0, subset)
+        changed = routes["sprout"][0]["read-locked iter_changes(basis)"]
         provider = workingtree_4.ContentFilterAwareSHA1Provider(wt2)
         shas, stats, fstat = {}, {}, {}
         with wt2.lock_read():
             basis = wt2.basis_tree()
             with basis.lock_read():
-                changed = {ch.path[1] or ch.path[0] for ch in wt2.iter_changes(basis)}
                 stored = {n: basis.get_file_text(n) for n in names}
+                filerev = {n: basis.get_file_revision(n) for n in names}
             readback = {n: wt2.get_file_text(n) for n in names}
             for i, n in enumerate(names):
                 ap = wt2.abspath(n)
@@ -706,12 +1095,20 @@ def _tree_part(ctx, filters, mod, win, sections, files, acc, fmt="2a", model_nam
                     fstat[n] = (st2.st_size, fobj.read())
                 finally:
                     fobj.close()
+        with wt3.lock_read():
+            readback3 = {n: wt3.get_file_text(n) for n in names}
+        for co, t_ in (("sprout", wt2), ("lightweight checkout", wt3)):
+            ct, co_ = _cmd_routes(t_.basedir, rev0, rev1, subset)
+            routes[co][0].update(ct)
+            routes[co][1].update(co_)
+        _judge_routes(ctx, filters, mod, win, sections, fmt, files, stacks, routes, {"sprout": wt2, "lightweight checkout": wt3},
+                      old_text, set(subset), acc, W, report_cap=report_cap)
         # a commit in the fresh checkout must not see any file as modified either
         wt2.commit("nothing changed")
         with wt2.lock_read():
             basis2 = wt2.basis_tree()
             with basis2.lock_read():
-                recommitted = {n for n in names if basis2.get_file_revision(n) != rev1}
+                recommitted = {n for n in names if basis2.get_file_revision(n) != filerev[n]}
                 stored2 = {n: basis2.get_file_text(n) for n in names}
         for name, key, c in files:
             stack = stacks[key]
@@ -736,10 +1133,11 @@ def _tree_part(ctx, filters, mod, win, sections, files, acc, fmt="2a", model_nam
                 if ((key in ("lf", "lf-with-crlf-in-repo") or (not win and key.startswith("native")))
                         and b"\r\r\n" not in c and b"\r\n" in disk):
                     ctx.violation(case, "%s must write LF but the checkout of canonical %s is %s on disk" % (sk, _r(c), _r(disk)))
-            if name in changed:
-                ctx.violation(case, "%s: fresh checkout of canonical %s (on disk %s) reports a change" % (sk, _r(c), _r(disk)), family=fam)
             if readback[name] != c:
                 ctx.violation(case, "%s: fresh checkout reads %s back as %s" % (sk, _r(c), _r(readback[name])), family=fam)
+            if readback3[name] != c:
+                ctx.violation(case, "%s: fresh lightweight checkout (%s working tree) reads %s back as %s"
+                              % (sk, OTHER_FMT[fmt], _r(c), _r(readback3[name])), family=fam)
             if name in recommitted or stored2[name] != c:
                 ctx.violation(case, "%s: a commit in the fresh checkout of canonical %s (on disk %s) records the file "
                               "as modified (new text %s)" % (sk, _r(c), _r(disk), _r(stored2[name])), family=fam)
@@ -776,6 +1174,7 @@ def _tree_part(ctx, filters, mod, win, sections, files, acc, fmt="2a", model_nam
             acc.add(cc + ["stat"], "stat %s %s %s" % (W, mk, hx(disk)), "%d %s" % (stats[name], a2.decode("ascii")))
             if not big:
                 acc.add(cc + ["changed"], "chg %s %s %s" % (W, mk, hx(c)), "T" if name in changed else "F")
+        _modified_files(ctx, wt2, files, stored2, rev0, acc, W, nmod)
     finally:
         if win:
             reg.register("eol", orig_lookup, override_existing=True)
@@ -793,7 +1192,7 @@ def _small_contents(ctx, filters, mod, key, k, rng):
     return contents
 
 
-def _all_keys_tree(ctx, filters, mod, win, acc, rng, k, big_sizes):
+def _all_keys_tree(ctx, filters, mod, win, acc, rng, k, big_sizes, fmt="2a"):
     """ONE tree in which every setting (and 'no eol preference', twice: a section that does not
     set eol, and paths no section matches) applies to some files: the stack is chosen per path.
     Every setting also gets a file larger than BIG_MIN per size in big_sizes."""
@@ -834,7 +1233,8 @@ def _all_keys_tree(ctx, filters, mod, win, acc, rng, k, big_sizes):
             if key in modelled:
                 model_names.add(name)
             n += 1
-    _tree_part(ctx, filters, mod, win, sections, files, acc, model_names=model_names)
+    _tree_part(ctx, filters, mod, win, sections, files, acc, fmt=fmt, model_names=model_names, nmod=ctx.pick(5, 15))
+    ctx.count("tree-format:" + fmt)
 
 
 def _trees(ctx, filters, eolmod, winmod, rng):
@@ -842,8 +1242,10 @@ def _trees(ctx, filters, eolmod, winmod, rng):
     k = ctx.pick(10, 40)
     big_sizes = ctx.pick((66000,), (66000, 135000))
     nonexact = [x for x in KEYS if x != "exact"]
-    for win, mod in ((False, eolmod), (True, winmod)):
-        _all_keys_tree(ctx, filters, mod, win, acc, rng, k, big_sizes)
+    # source format (= the sprout's): one of the two trees each; the lightweight checkout has the other
+    fmts = rng.sample(["2a", "1.14"], 2)
+    for (win, mod), fmt in zip(((False, eolmod), (True, winmod)), fmts):
+        _all_keys_tree(ctx, filters, mod, win, acc, rng, k, big_sizes, fmt=fmt)
     # ordered sections: two different converting settings by extension and a catch-all last;
     # thorough: every ordered pair, and the single `[name *]` rule for every setting
     if ctx.tier == "thorough":
@@ -868,7 +1270,7 @@ def _trees(ctx, filters, eolmod, winmod, rng):
                 n += 1
         # WorkingTree5 ("1.14") is the other dirstate format with content filtering
         fmt = rng.choice(("2a", "1.14")) if ctx.tier != "thorough" else ("2a", "2a", "1.14")[j % 3]
-        _tree_part(ctx, filters, mod, win, sections, files, acc, fmt=fmt)
+        _tree_part(ctx, filters, mod, win, sections, files, acc, fmt=fmt, nmod=ctx.pick(5, 10))
         ctx.count("tree-ordered-sections")
         ctx.count("tree-format:" + fmt)
     acc.flush(ctx)
@@ -927,7 +1329,8 @@ def replay(ctx, case):
                 files.append((cname, k2, _canonicalise(k2, b"x\ny\r\n")))
         files.append((name, key, c))
         acc = _Acc()
-        _tree_part(ctx, filters, mod, win, sections, files, acc, fmt=case.get("fmt", "2a"), model_names={name})
+        _tree_part(ctx, filters, mod, win, sections, files, acc, fmt=case.get("fmt", "2a"), model_names={name},
+                   report_cap=10 ** 6)
         acc.flush(ctx)
         _join(ctx)
         return dict(case=dict(case, c=_cid(c)), content=_r(c), oracle_failures=[v["what"] for v in ctx.violations],
